@@ -3550,7 +3550,9 @@ func (a *Association) handleForwardTSN(chunkTSN *chunkForwardTSN) []*packet {
 	// corresponding streams so that the abandoned chunks can be removed
 	// from the reassemblyQueue.
 	for _, forwarded := range chunkTSN.streams {
-		if s, ok := a.streams[forwarded.identifier]; ok {
+		// The skipped message may be the first one of a stream we have not seen yet:
+		// create it so that the next expected SSN is remembered.
+		if s := a.getOrCreateStream(forwarded.identifier, true, PayloadTypeUnknown); s != nil {
 			s.handleForwardTSNForOrdered(forwarded.sequence)
 		}
 	}
@@ -3591,7 +3593,9 @@ func (a *Association) handleIForwardTSN(chunkTSN *chunkIForwardTSN) []*packet {
 	a.payloadQueue.advanceCumulativeTSN(chunkTSN.newCumulativeTSN)
 
 	for _, forwarded := range chunkTSN.streams {
-		if s, ok := a.streams[forwarded.identifier]; ok {
+		// The skipped message may be the first one of a stream we have not seen yet:
+		// create it so that the next expected MID is remembered.
+		if s := a.getOrCreateStream(forwarded.identifier, true, PayloadTypeUnknown); s != nil {
 			if forwarded.unordered {
 				s.handleForwardTSNForUnorderedMID(forwarded.messageIdentifier)
 			} else {
